@@ -340,6 +340,11 @@ func TestVerifReplay(t *testing.T) {
 			a.Encrypt(o, c.in[16*j:16*j+16]); if !bytes.Equal(o, c.want[16*j:16*j+16]) { t.Fatalf("case %%d: NewCipher Encrypt block %%d", i, j) }
 			b := append([]byte{}, c.in[16*j:16*j+16]...); a.Encrypt(b, b); a.Decrypt(b, b); if !bytes.Equal(b, c.in[16*j:16*j+16]) { t.Fatalf("case %%d: in-place round trip", i) }
 			g.Decrypt(o, c.want[16*j:16*j+16]); if !bytes.Equal(o, c.in[16*j:16*j+16]) { t.Fatalf("case %%d: portable Decrypt", i) }
+			o2 := make([]byte, 16); cs := append([]byte{}, c.want[16*j:16*j+16]...)
+			a.Decrypt(o2, cs); if !bytes.Equal(o2, c.in[16*j:16*j+16]) { t.Fatalf("case %%d: NewCipher Decrypt into a separate buffer, block %%d", i, j) }
+			if !bytes.Equal(cs, c.want[16*j:16*j+16]) { t.Fatalf("case %%d: NewCipher Decrypt changed its source block", i) }
+			ps := append([]byte{}, c.in[16*j:16*j+16]...)
+			a.Encrypt(o2, ps); if !bytes.Equal(ps, c.in[16*j:16*j+16]) { t.Fatalf("case %%d: NewCipher Encrypt changed its source block", i) }
 		}
 		if candoAsm {
 			var c2 sm4Cipher
